@@ -1,4 +1,6 @@
+import math
 import re
+import struct
 from .nodes.visitor import Visitor
 
 
@@ -98,14 +100,38 @@ def cnum(txt: str):
 
 
 def float_num(txt: str):
+    """Convert a C floating constant into a value and its type."""
     assert isinstance(txt, str)
 
     # Lower tha casing:
     num = txt.lower()
 
-    # Floating point
-    type_specifiers = ["double"]
-    return float(num), type_specifiers
+    # A hexadecimal floating constant always has a binary exponent, so
+    # its last character is a hex digit only when there is no suffix.
+    is_hex = num.startswith("0x")
+
+    # Determine the type by the suffix (C99 6.4.4.2):
+    if num.endswith("l"):
+        num = num[:-1]
+        type_specifiers = ["long", "double"]
+    elif num.endswith("f"):
+        num = num[:-1]
+        type_specifiers = ["float"]
+    else:
+        type_specifiers = ["double"]
+
+    if is_hex:
+        value = float.fromhex(num)
+    else:
+        value = float(num)
+
+    if type_specifiers == ["float"]:
+        # Round to single precision:
+        try:
+            value = struct.unpack("f", struct.pack("f", value))[0]
+        except OverflowError:
+            value = math.copysign(math.inf, value)
+    return value, type_specifiers
 
 
 def replace_escape_codes(txt: str):
